@@ -358,8 +358,10 @@ class Check(BaseCheck):
                     ' (index/cursor for times=2 and factor=3 only)' if self.tier == 'quick' else
                     ' (index/cursor for every PEEL / unroll_while instance and STRICT times=2, factor=3, k)'),
                 'variable_factor_values': list(self.kvalues), 'unroll_for_times': '1..4', 'unroll_while_times': '1..3',
-                'split_factors': '1..4, k, KF', 'body_sequence_length': '<=2 (core pool), 1 (all)' if
-                self.tier == 'quick' else '<=2 (all), 3 (core pool, main headers)'}
+                'split_factors': '1..4, k, KF', 'body_sequence_length':
+                    '1 (whole pool), 2 (core pool, headers xs zip enum enumzip)' if self.tier == 'quick' else
+                    '1 (whole pool, every header), 2 (core pool, every header; whole pool for xs enumzip loc5), '
+                    '3 (core pool, at most one nested loop, headers xs enumzip)'}
 
     def shards(self):
         return [(i, NSHARDS) for i in range(NSHARDS)]
